@@ -134,8 +134,8 @@ Definition pi_untaint_cloud (l : list call) : list call :=
 Definition pi_cloud_anon (l : list call) : list call := map anon (pi_cloud l).
 
 Definition mismatches_C01 := mism false pi_removal.   Definition propfail_C01 := pfail check_C01_group.
-Definition mismatches_C03 := mism false pi_taint.   Definition propfail_C03 := pfail check_C03_group.
-Definition mismatches_C04 := mism false pi_cloud_anon.     Definition propfail_C04 := pfail check_C04_group.
+Definition mismatches_C03 := mism false pi_taint.   Definition propfail_C03 := pfail (fun x calls => check_C03_group x calls && check_C03_recover x calls).
+Definition mismatches_C04 := mism false pi_cloud_anon.     Definition propfail_C04 := pfail (fun x calls => check_C04_group x calls && check_C04_exact x calls).
 Definition mismatches_C06 := mism false pi_decision.
 Definition propfail_C06 := pfail (fun x calls => check_C06_group x calls && check_up_attempted x calls).
 Definition mismatches_C07 := mism false pi_untaint_cloud.
